@@ -2,11 +2,13 @@
     Proved for the core fragment of the engine model (inputs + Normal queries with
     data-dependent / conditional dependencies, unchanged writes, reverts, early cut-off,
     pedantic repair of new dependencies): every program, every history, every fuel.
-    Firewalls, projections, external inputs and unordered groups are covered by the full
-    model [Engine/Model.v], which is tied to the code by the correspondence run and judged
-    by the from-scratch oracle on every run, but whose soundness is not proved here
-    (hence "_core": the statement for all query kinds is the property text itself). *)
+    and ([C01_fw_sound]) for the fragment with FIREWALL queries and their transitive-firewall-
+    callee bookkeeping.  Projections, external inputs and unordered groups are covered by the
+    full model [Engine/Model.v], which is tied to the code by the correspondence run and judged
+    by the from-scratch oracle on every run, but whose soundness is not proved here (hence
+    "_core" / "_fw": the statement for all query kinds is the property text itself). *)
 From QV Require Import Common.Prelude Engine.Model Engine.Core Engine.CoreSpec Engine.CoreSound.
+From QV Require Import Engine.Fw Engine.FwSpec Engine.FwSound.
 
 (** every answer [z] the model gives to a query at position [i] of a history is the
     from-scratch value of that query under the inputs committed by the first [i] operations *)
@@ -32,9 +34,32 @@ Theorem C01_core_no_panic :
     (exists z, r_out r = RValue z) \/ r_out r = RFuel.
 Proof. exact CoreSound.C01_core_no_panic. Qed.
 
+(** The same for the FIREWALL fragment [Engine/Fw.v] (inputs, Normal and Firewall queries with
+    data-dependent dependencies): dirty propagation stops at firewalls, every query records its
+    transitive firewall callees, only the root of a request repairs them before trusting clean
+    edges, and the three rules that keep this sound when a recorded set is out of date (pedantic
+    repair of new dependencies; pedantic repair of a dependency whose recorded set is not the one
+    accounted for; rebuild of the set with refreshed observations).  Every well-formed acyclic
+    program, every history, every fuel. *)
+Theorem C01_fw_sound :
+  forall fuel p ops i n r z, wf_fw p -> fsessions_fuelled fuel p ops i ->
+    nth_error ops i = Some (OQuery n) ->
+    nth_error (frun_history_f fuel p init_state ops) i = Some r ->
+    r_out r = RValue z ->
+    FwSpec p (inputs_after (firstn i ops)) n z.
+Proof. exact FwSound.fw_sound. Qed.
+
+Theorem C01_fw_unguarded_refuted : ~ fw_sound_statement_unguarded.
+Proof. exact FwSound.fw_sound_unguarded_refuted. Qed.
+
+Check fex_prog_wf.  (* wf_fw is satisfiable by a program whose dependency switches between two firewalls *)
+Check fex_run.      (* and the model run on it goes through switch, change behind the new firewall, switch back *)
+
 Check ex_prog_wf.   (* wf_core is satisfiable by a program with a conditional dependency *)
 Check ex_run.       (* and the model run on it shows change, unchanged write, revert, cut-off *)
 
 Print Assumptions C01_core_sound.
 Print Assumptions C01_core_unguarded_refuted.
 Print Assumptions C01_core_no_panic.
+Print Assumptions C01_fw_sound.
+Print Assumptions C01_fw_unguarded_refuted.
